@@ -59,6 +59,10 @@ def _delimiter_to_name(delimiter):
         raise ValueError(f"Invalid delimiter: {delimiter}")
 
 
+# The parser descends recursively into parentheses and brackets: bound the nesting depth explicitly instead of hitting Python's recursion limit
+_max_nesting_depth = 100
+
+
 def parse_op(text):
     indicator = ExpressionIndicator(text)
 
@@ -112,6 +116,12 @@ def parse_op(text):
     stack = [[]]
     for token in tokens:
         if token.text in _delimiters_front:
+            if len(stack) > _max_nesting_depth:
+                raise SyntaxError(
+                    text,
+                    pos=range(token.begin_pos, token.end_pos),
+                    message=f"The expression is nested too deeply (more than {_max_nesting_depth} levels of parentheses and brackets):\n%EXPR%",
+                )
             stack.append([])
             stack[-1].append(token)
         elif token.text in _delimiters_back:
